@@ -94,6 +94,20 @@ def observe(st, backend_arg, tensors):
     return ("backend", b.name)
 
 
+def step(st, backend_arg, tensors):
+    """One lookup with the transaction semantics of BackendRegistry.get: the real BackendRegistryState.get works
+    on a copy, which replaces the state only if the lookup succeeds. Returns (state afterwards, outcome)."""
+    try:
+        new, b = st.get(backend_arg, tensors)
+    except BackendResolutionError:
+        return st, ("error", "BackendResolutionError")
+    except ValueError:
+        return st, ("error", "ValueError")
+    if isinstance(b, InvalidBackend):
+        return new, ("invalid", b.name)
+    return new, ("backend", b.name)
+
+
 def spec(cfg, prios, kinds, backend_arg=None, stack=(), lazy=(), failing=(), imported=(1, 2)):
     """Documented precedence: backend object > registered name > innermost with-block > tensor types."""
     backends = [(name, fw, prios[i]) for i, (name, fw) in enumerate(CONFIGS[cfg]) if fw not in lazy or fw in imported]
@@ -132,7 +146,11 @@ def check_lookup(cfg, prios, order, kinds, lazy=(), failing=(), imported=(1, 2),
     st, objs = build(cfg, prios, order, lazy, failing, imported)
     if history is not None:
         if history[0] == "lookup":
-            observe(st, None, tensors_of(history[1]))
+            st, _ = step(st, None, tensors_of(history[1]))
+        elif history[0] == "failed-lookup-by-name":
+            st, _ = step(st, "no-such-backend", [])
+        elif history[0] == "failed-lookup-by-type":
+            st, _ = step(st, None, [KU()])
         elif history[0] == "register-unrelated":
             st._register(Backend(ops={}, name="unrelated", priority=history[1], optimizations=[], compiler=None, is_supported_tensor=lambda t: False, get_shape=None))
         elif history[0] == "enter-exit":
@@ -140,8 +158,8 @@ def check_lookup(cfg, prios, order, kinds, lazy=(), failing=(), imported=(1, 2),
             st._enter(b)
             st._exit(b)
         elif history[0] == "same-lookup-twice":
-            observe(st, None, tensors_of(kinds))
-    got = observe(st, None, tensors_of(kinds))
+            st, _ = step(st, None, tensors_of(kinds))
+    st, got = step(st, None, tensors_of(kinds))
     want = spec(cfg, prios, kinds, None, (), lazy, failing, imported)
     return got == want
 
